@@ -27,6 +27,10 @@ package verifharness
 //   register <chain> <acct> <rank> <chain>:<tag>*  -> ok      (ClientKeeper.RegisterRelayers on <chain>: REPLACES the entry of <acct>;
 //        <tag> n = the address string 0x..ee00nn the relayer goes by on that chain; <rank> = position of the entry in the
 //        store's iteration order, always (re)computed by the harness)
+//   fakelog <chain> <acct> <spec>                 -> ok|err <dump chain>   (a transaction of a keyed account to a contract that is
+//        NOT the packet contract and emits LOG1(keccak("PacketSent(bytes)"), abi(packet)): a look-alike; the hook must ignore it.
+//        spec = <dst>,<seq n|p|f>,<src s|o>,<tok>,<amt>,<receiver>: destination, sequence = next / next-1 / next+1 of that
+//        destination, source name = this chain / another chain; transfer data "amt of tok to receiver". Also a batch leg: L,<spec>)
 //   recv <src> <dst> <seq> [forge] [by<acct>]      (the relay messages are signed by account 0, 8 or 9; light clients are
 //   ack  <src> <dst> <seq> [forge] [by<acct>]       updated by a dedicated account that no registry op touches)
 //   recv <src> <dst> <seq> [forge]                -> ok code=<ack code>|err <dump dst>
@@ -337,6 +341,87 @@ func (h *c03Harness) feeConserved(S int, mech string) {
 	}
 }
 
+// nextSeqs: the keeper's next send sequence of chain c towards every real destination
+func (h *c03Harness) nextSeqs(c int) map[int]uint64 {
+	m := map[int]uint64{}
+	for d := 0; d < c03NChains; d++ {
+		if d != c {
+			m[d] = h.w.ch[c].App.XIBCKeeper.PacketKeeper.GetNextSequenceSend(h.w.ch[c].GetContext(), h.name(c), h.name(d))
+		}
+	}
+	return m
+}
+
+// fakeLogData: ABI-encoded data of a PacketSent(bytes) event for a look-alike packet (spec = dst, seq n|p|f, src s|o, tok, amt, receiver)
+func (h *c03Harness) fakeLogData(c, sender int, g []string) []byte {
+	w := h.w
+	d, t, rcv := c03Atoi(g[0]), c03Atoi(g[3]), c03Atoi(g[5])
+	amt, _ := new(big.Int).SetString(g[4], 10)
+	seq := uint64(1)
+	if d != c03Ghost && d != c {
+		seq = w.ch[c].App.XIBCKeeper.PacketKeeper.GetNextSequenceSend(w.ch[c].GetContext(), h.name(c), h.name(d))
+	}
+	switch g[1] {
+	case "p":
+		if seq > 1 {
+			seq--
+		}
+	case "f":
+		seq++
+	}
+	src := h.name(c)
+	if g[2] == "o" {
+		src = h.name((c + 1) % c03NChains)
+	}
+	ori := ""
+	if b := w.binding(c, w.tok[c][t], h.name(d)); b.Bound {
+		ori = b.OriToken
+	}
+	td := packettypes.TransferData{Receiver: strings.ToLower(w.acc[rcv].String()), Amount: common.LeftPadBytes(amt.Bytes(), 32),
+		Token: strings.ToLower(w.tok[c][t].String()), OriToken: ori}
+	tdb, err := td.ABIPack()
+	if err != nil {
+		h.r.t.Fatal(err)
+	}
+	p := packettypes.Packet{SrcChain: src, DstChain: h.name(d), Sequence: seq, Sender: strings.ToLower(w.acc[sender].String()),
+		TransferData: tdb, CallData: []byte{}, CallbackAddress: common.Address{}.String(), FeeOption: 0}
+	pb, err := p.ABIPack()
+	if err != nil {
+		h.r.t.Fatal(err)
+	}
+	data, err := packetcontract.PacketContract.ABI.Events["PacketSent"].Inputs.Pack(pb)
+	if err != nil {
+		h.r.t.Fatal(err)
+	}
+	return data
+}
+
+// checkCommitmentsBacked (dual of checkPacketSentLogs): every commitment that a successful transaction added on the source
+// must be backed by a PacketSent event of the PACKET CONTRACT in that receipt — the endpoint escrows / burns exactly when it
+// makes the packet contract emit one; a commitment without it is a packet with no escrow or burn behind it.
+func (h *c03Harness) checkCommitmentsBacked(c int, logs []*evm.Log, before map[int]uint64, mech string) {
+	ev := packetcontract.PacketContract.ABI.Events["PacketSent"]
+	genuine := map[string]bool{}
+	for _, l := range logs {
+		if common.HexToAddress(l.Address) != packetcontract.PacketContractAddress || len(l.Topics) == 0 || common.HexToHash(l.Topics[0]) != ev.ID {
+			continue
+		}
+		if vals, err := packetcontract.PacketContract.ABI.Unpack("PacketSent", l.Data); err == nil {
+			genuine[string(packettypes.CommitAcknowledgement(vals[0].([]byte)))] = true // sha256 of the packet bytes = its commitment
+		}
+	}
+	after := h.nextSeqs(c)
+	for d, b := range before {
+		for q := b; q < after[d]; q++ {
+			cm := h.w.ch[c].App.XIBCKeeper.PacketKeeper.GetPacketCommitment(h.w.ch[c].GetContext(), h.name(c), h.name(d), q)
+			if len(cm) > 0 && !genuine[string(cm)] {
+				h.find("C03:commitment-without-escrow:"+mech, fmt.Sprintf("chain %d committed packet %d->%d seq %d in a transaction whose receipt has no PacketSent event of the packet contract for it: no escrow or burn stands behind it", c, c, d, q),
+					fmt.Sprintf("commitment %x", cm), "no commitment")
+			}
+		}
+	}
+}
+
 // checkPacketSentLogs: every PacketSent event in the receipt of a successful transaction (the endpoint has already
 // escrowed / burnt for it) must have its commitment in the keeper's store — escrow without commitment can end neither
 // delivered nor refunded. Returns the number of PacketSent events.
@@ -571,6 +656,7 @@ func (h *c03Harness) apply(op string) string {
 			value.Add(value, fa)
 		}
 		var failed bool
+		sendSeqBefore := h.nextSeqs(c)
 		var sendLogs []*evm.Log
 		pan, msg := safely(func() {
 			var events sdk.Events
@@ -603,6 +689,7 @@ func (h *c03Harness) apply(op string) string {
 		if t == 0 {
 			r.Count("send.ok.native")
 		}
+		h.checkCommitmentsBacked(c, sendLogs, sendSeqBefore, "send")
 		h.checkPacketSentLogs(c, sendLogs, "send")
 		h.conservedAround(c, "send")
 		return "ok " + after.String()
@@ -622,16 +709,51 @@ func (h *c03Harness) apply(op string) string {
 		h.regVersion[c]++
 		r.Count("register")
 		return "ok"
+	case "fakelog":
+		c, snd := c03Atoi(f[1]), c03Atoi(f[2])
+		before := h.view(c)
+		seqBefore := h.nextSeqs(c)
+		var failed bool
+		var logs []*evm.Log
+		pan, msg := safely(func() {
+			var events sdk.Events
+			failed, _, events, logs = w.sendTxLogs(c, snd, w.emitter, big.NewInt(0), h.fakeLogData(c, snd, strings.Split(f[3], ",")))
+			if !failed {
+				w.notePackets(events.ToABCIEvents()) // (nothing, unless the hook took the look-alike for a packet)
+			}
+		})
+		if pan {
+			r.t.Fatalf("panic in fakelog: %s", msg)
+		}
+		w.coord.CommitBlock(w.ch[c])
+		h.observeNew("fakelog", false)
+		after := h.view(c)
+		if failed {
+			r.Count("fakelog.err")
+			if after.String() != before.String() {
+				h.find("C03:failed-send-changed-state", "a failed transaction changed the chain's views", after.String(), before.String())
+			}
+			return "err " + after.String()
+		}
+		r.Count("fakelog.ok")
+		r.Count("fakelog.ok." + strings.Split(f[3], ",")[1] + strings.Split(f[3], ",")[2])
+		h.checkCommitmentsBacked(c, logs, seqBefore, "fakelog")
+		h.conservedAround(c, "fakelog")
+		return "ok " + after.String()
 	case "batch":
 		c, snd, strict := c03Atoi(f[1]), c03Atoi(f[2]), f[3] != "0"
 		before := h.view(c)
 		var frames []c03Frame
 		total := big.NewInt(0)
-		nSend, mech := 0, "batch"
+		nSend, nFake, mech := 0, 0, "batch"
 		dsts := map[int]int{}
+		seqBefore := h.nextSeqs(c)
 		for _, leg := range f[4:] {
 			g := strings.Split(leg, ",")
 			switch g[0] {
+			case "L":
+				frames = append(frames, c03Frame{to: w.emitter, value: big.NewInt(0), data: h.fakeLogData(c, c03AccFwd, g[1:])})
+				nFake++
 			case "A":
 				amt, _ := new(big.Int).SetString(g[2], 10)
 				data, _ := w.erc20().Pack("approve", endpointcontract.EndpointContractAddress, amt)
@@ -694,6 +816,11 @@ func (h *c03Harness) apply(op string) string {
 			return "err " + after.String()
 		}
 		r.Count("batch.ok")
+		if nFake > 0 {
+			r.Count("batch.ok.with-fakelog")
+			mech = "batch+fakelog"
+		}
+		h.checkCommitmentsBacked(c, logs, seqBefore, mech)
 		sent := h.checkPacketSentLogs(c, logs, mech)
 		r.Count(fmt.Sprintf("batch.ok.packets%d", c03Min(uint64(sent), 3)))
 		if sent >= 2 {
